@@ -216,9 +216,35 @@ def main(tier, only=None):
             frontier_left += len(level)
         for k in list(os.listdir(STATES)):          # the next base starts from its own image: nothing stored so far is needed again
             os.unlink(os.path.join(STATES, k))
+    # focused deeper search: the checksum seed / UUID / metadata_csum requests depend on each other's leftovers (a seed kept in the superblock while the feature is
+    # off, a UUID changed meanwhile), so sequences of four (thorough five) of them are explored from two bases
+    FOCUS = ['csum_seed on', 'csum_seed off', 'uuid set', 'uuid clear', 'csum off', 'csum on']
+    fdepth = 4 if quick else 5
+    for b in ([x for x in ('ext4csum', 'deepext') if x in bases] if not only else []):
+        if ck.expired(): ck.add(exhaustive=False); break
+        d0 = fsweep.base_data(b); k0 = state_key(d0)
+        with open(os.path.join(STATES, k0), 'wb') as f: f.write(zlib.compress(d0, 1))
+        fseen = {k0: (b,)}; level = [k0]
+        for dep in range(1, fdepth + 1):
+            if ck.expired(): ck.add(exhaustive=False); break
+            jobs = [(os.path.join(STATES, k), fseen[k], l) for k in level for l in FOCUS]
+            res = pmap(step, jobs, chunksize=2)
+            nxt = []
+            for (label, bad, key, oc, txt), j in zip(res, jobs):
+                trans += 1; outcomes[oc] = outcomes.get(oc, 0) + 1
+                hist = j[1] + (label,)
+                for x in bad[:2]:
+                    m = re.match(r'\[([a-z0-9-]+)\] ', x)
+                    ck.violation('focus: %s :: %s' % (' ; '.join(hist), x[:60]), {'history': list(hist), 'what': x, 'tune2fs_output': txt, 'root_cause_class': m.group(1) if m else None})
+                if key and key not in fseen and not bad:
+                    fseen[key] = hist; nxt.append(key); maxd = max(maxd, dep)
+            level = nxt
+            if not level: break
+        for k in list(os.listdir(STATES)): os.unlink(os.path.join(STATES, k))
+        seen.update({('focus', k): v for k, v in fseen.items()})
     ck.add(evaluations=trans, distinct_nontrivial=len(seen), states=len(seen), transitions=trans, traces_validated_against_impl=trans,
            rule='BFS over tune2fs invocation sequences (menu of %d invocations: feature conversions, UUID, inode size, quota, labels, reserved blocks, error behaviour, intervals, mount options, RAID hints) from %d corpus images to depth %d; '
-                'states de-duplicated on the image hash with clock/counter fields masked; oracle per successful transition: requested setting present, no other superblock field changed outside a per-operation allow-list, '
+                'plus a focused search to depth 4 (thorough 5) over the six checksum-seed / UUID / metadata_csum requests; states de-duplicated on the image hash with clock/counter fields masked; oracle per successful transition: requested setting present, no other superblock field changed outside a per-operation allow-list, '
                 'independent tree digest unchanged, e2fsck -fn = 0 and independent checker clean (after the e2fsck run tune2fs asked for, which must exit <= 1); a run that exits non-zero after writing to the image must not have changed any file' % (len(OPS), len(bases), depth),
            samples=samples or [' ; '.join(list(seen.values())[-1])])
     ck.cov['outcomes'] = outcomes; ck.cov['max_depth_reached'] = maxd; ck.cov['frontier_states_not_expanded'] = frontier_left
